@@ -15,6 +15,7 @@ This module must not import pyopenapi_gen.
 from __future__ import annotations
 
 import ast
+import hashlib
 import importlib
 import re
 from pathlib import Path
@@ -86,6 +87,7 @@ def class_defs(cls: ast.ClassDef) -> list[dict]:
                     "ret": _src(n.returns),
                     "yields": _yields(n),
                     "body": _body_kind(n),
+                    "h": hashlib.sha1(ast.dump(n).encode()).hexdigest()[:10],
                 }
             )
     return out
@@ -192,4 +194,64 @@ def obs_surfacex(job: dict) -> Any:
             raise
         mapi["error"] = short_exc(e)
     out["mock_api"] = mapi
+    return out
+
+
+@register("wirex")
+def obs_wirex(job: dict) -> Any:
+    """`wire` for the client classes APIClient does NOT expose (e.g. a tag property overwritten by a method of the same
+    name): the class is instantiated directly on the bundled transport and every method is called like obs_wire does."""
+    import asyncio
+    import inspect
+    import sys
+
+    import httpx
+
+    from harness import obs_wire as ow
+
+    d = ow.discover(job)
+    captured: list[dict] = []
+
+    def handler(req: httpx.Request) -> httpx.Response:
+        captured.append(ow.capture(req))
+        return httpx.Response(200, json={})
+
+    ow._HANDLER[0] = handler
+    client = ow.make_client(job, d)
+    exposed = set()
+    for pname in d["props"]:
+        try:
+            exposed.add(type(getattr(client, pname)).__name__)
+        except Exception:  # noqa: BLE001
+            pass
+    out = []
+    ed = pkg_dir(job["root"], job["pkg"]) / "endpoints"
+    loop = asyncio.new_event_loop()
+    try:
+        for p in sorted(ed.glob("*.py")):
+            if p.name == "__init__.py":
+                continue
+            try:
+                mod = importlib.import_module(f"{job['pkg']}.endpoints.{p.stem}")
+            except Exception:  # noqa: BLE001
+                continue
+            for name, cls in vars(mod).items():
+                if not (isinstance(cls, type) and cls.__module__ == mod.__name__ and name.endswith("Client") and name not in exposed):
+                    continue
+                if getattr(cls, "_is_protocol", False):
+                    continue
+                try:
+                    tc = cls(client.transport, "http://srv.test")
+                except Exception:  # noqa: BLE001
+                    continue
+                for mn, fn in ow._methods(cls).items():
+                    hints = ow._hints(fn)
+                    for plan in ow.arg_plans(fn, hints)[: int(job.get("max_plans", 8))]:
+                        syn = ow.Synth()
+                        kwargs = {a: syn.make(hints.get(a, inspect._empty))[0] for a in plan["required"] + plan["supplied"]}
+                        captured.clear()
+                        res = loop.run_until_complete(asyncio.wait_for(ow._call(getattr(tc, mn), kwargs, ow._nature(fn)), 20))
+                        out.append({"prop": "", "cls": name, "method": mn, "requests": list(captured), "outcome": {"kind": res["kind"]}})
+    finally:
+        loop.close()
     return out
